@@ -176,6 +176,51 @@ func checkC03(c *Ctx) {
 				}
 			}
 		})
+		// ---- C03.17 before the deadline is armed the handler turns a peer away only when it could not learn who the peer
+		// is (no IP address, a failed lookup): every return that can be reached without SetDeadline sits behind a nil test
+		{
+			var dl ssa.Instruction
+			eachInstr(h, func(in ssa.Instruction) {
+				if call, ok := in.(*ssa.Call); ok && call.Call.IsInvoke() && aliases[call.Call.Value] && call.Call.Method.Name() == "SetDeadline" && dl == nil {
+					dl = in
+				}
+			})
+			if dl != nil {
+				r.Rule("C03.17", "returns before the deadline is armed sit behind a nil test (no address / failed lookup)", 1)
+				nEarly, bad := 0, false
+				var pos token.Pos = h.Pos()
+				eachInstr(h, func(in ssa.Instruction) {
+					ret, ok := in.(*ssa.Return)
+					if !ok || ret.Block().Comment == "recover" {
+						return
+					}
+					if early, _ := reach(h, nil, isInstr(in), isInstr(dl), nil); !early {
+						return
+					}
+					nEarly++
+					// the branch that sends control to this return: the nearest If above it through single-predecessor blocks
+					b := ret.Block()
+					cnd := ""
+					for hops := 0; hops < 8 && b != nil; hops++ {
+						if len(b.Preds) != 1 {
+							break
+						}
+						p := b.Preds[0]
+						if iff, isIf := p.Instrs[len(p.Instrs)-1].(*ssa.If); isIf {
+							cnd, _ = normCond(iff.Cond)
+							break
+						}
+						b = p
+					}
+					if !strings.Contains(cnd, "nil") {
+						bad = true
+						pos = in.Pos()
+					}
+				})
+				r.Check(!bad, "C03.17", "handleNewTCPConn: early returns only for peers without an address or a failed lookup", pos, fnName(h), fmt.Sprintf("%d return(s) reachable before SetDeadline, each dominated by a nil test", nEarly),
+					"the handler returns (its caller closes the connection) before the classification deadline is armed, on a condition that is not 'no address / lookup failed': such peers are closed at once and never read, which tells a prober something about the phantom")
+			}
+		}
 		// ---- C03.3 deadline
 		var setDL *ssa.Call
 		eachInstr(h, func(in ssa.Instruction) {
